@@ -108,7 +108,8 @@ func classify(srv *ogServer, ps *plannedSet, q *query, kind string, got, want *r
 			return "no-answer"
 		}
 	}
-	// single defect models first, then their combination (class = the first one of the set)
+	// single defect models first, then the combinations of the empty-value model with a regex model
+	// (class = the first model of the set)
 	var applicable []rewriter
 	for _, rw := range rewriters {
 		if _, ok := rw.apply(q.e); ok {
@@ -142,8 +143,12 @@ func classify(srv *ogServer, ps *plannedSet, q *query, kind string, got, want *r
 			return rw.class
 		}
 	}
-	if len(applicable) > 1 && explains(applicable) {
-		return applicable[0].class
+	for i, a := range applicable {
+		for _, b := range applicable[i+1:] {
+			if a.class != b.class && explains([]rewriter{a, b}) {
+				return a.class
+			}
+		}
 	}
 	if got.err == "" && len(got.series) == 0 && dupSignatureOverRange(ps, q, applicable) {
 		return "binop-duplicate-check-per-series"
@@ -234,6 +239,24 @@ var rewriters = []rewriter{
 					kept = append(kept, m)
 				}
 				s.matchers = kept
+				return changed
+			})
+		},
+	},
+	{
+		// the same, except that the index evaluates an alternation of distinct literals exactly
+		class: "matcher-regex-unanchored",
+		apply: func(e expr) (expr, bool) {
+			return mapSelectors(e, func(s *selector) bool {
+				changed := false
+				for i := range s.matchers {
+					m := &s.matchers[i]
+					if m.re != nil && !literalAlternation(m.re) {
+						dot := func() *rx { return &rx{kind: "star", a: &rx{kind: "any"}} }
+						m.re = &rx{kind: "cat", a: dot(), b: &rx{kind: "cat", a: m.re, b: dot()}}
+						changed = true
+					}
+				}
 				return changed
 			})
 		},
@@ -460,4 +483,21 @@ func shrink(srv *ogServer, eng *promql.Engine, dir string, ps *plannedSet, q *qu
 		parts = append(parts, labelsKey(sr.labels)+" "+strings.Join(pts, " "))
 	}
 	return fmt.Sprintf("%d series after %d attempts: %s", len(cur.series), attempt, strings.Join(parts, " ; "))
+}
+
+// literalAlternation: is the regex an alternation of at least two distinct literals?
+func literalAlternation(r *rx) bool {
+	lits := map[string]bool{}
+	var walk func(r *rx) bool
+	walk = func(r *rx) bool {
+		switch r.kind {
+		case "lit":
+			lits[r.s] = true
+			return true
+		case "alt":
+			return walk(r.a) && walk(r.b)
+		}
+		return false
+	}
+	return r.kind == "alt" && walk(r) && len(lits) >= 2
 }
